@@ -29,6 +29,11 @@ META = {
                           'rejected by name; every AllowableRange value of an option has an enum member.  Refuted and recorded: nan is stored by every '
                           'float parameter; junk text and int nan/inf die in float()/int() without the parameter name; members written "4.0" die in '
                           'from_input_string (anonymous for 3 enums); Fracture Shape "2.0" becomes member 4; any non-listed boolean text is True.'),
+    'level_text_units': ('Unit-qualified values and values in use after Calculate: C07_unit_qualified - whatever the conversion into CurrentUnits is (pint, '
+                         'as data), the verdict on "v unit" is the verdict of the range model on the converted value; tied for every float declaration with a '
+                         'pint-convertible unit family by values written in other catalogue units at / next to the bounds (reader level, and Model level for '
+                         'rejections; unit texts the pinned ConvertUnits cannot parse are C06 and skipped); HIP-RA-X: a bound / in-range value is still the '
+                         'value held after read_parameters + Calculate.'),
     'level_note': ('Trusted: Coq kernel + vm_compute; the generator and harness (unverified Python) that dump the declarations and observe '
                    'the outcome of the real calls; CPython float()/int() parsing (the model starts from the parsed double). nan is outside the '
                    'model (Q): the pinned reader accepts it for float parameters because every comparison with nan is False (observation).'),
@@ -53,7 +58,7 @@ META = {
     'fingerprint': [('src/geophires_x/Parameter.py', 'ReadParameter'), ('src/geophires_x/Reservoir.py', 'Reservoir.read_parameters'),
                     ('src/geophires_x/WellBores.py', 'WellBores.read_parameters'), ('src/geophires_x/SurfacePlant.py', 'SurfacePlant.read_parameters'),
                     ('src/geophires_x/Economics.py', 'Economics.read_parameters'), ('src/hip_ra_x/hip_ra_x.py', 'HIP_RA_X.read_parameters'),
-                    ('src/geophires_x/Model.py', 'Model.read_parameters'), ('src/geophires_x/Parameter.py', 'coerce_int_params_to_enum_values'), ('src/geophires_x_client/__init__.py', 'GeophiresXClient.get_geophires_result')],
+                    ('src/geophires_x/Model.py', 'Model.read_parameters'), ('src/geophires_x/Parameter.py', 'ConvertUnits'), ('src/hip_ra_x/hip_ra_x.py', 'HIP_RA_X.Calculate'), ('src/geophires_x/Parameter.py', 'coerce_int_params_to_enum_values'), ('src/geophires_x_client/__init__.py', 'GeophiresXClient.get_geophires_result')],
     'exhaustive': True,
 }
 GENERATORS = (paramtable.gen_paramtable, paramtable.gen_optiontable)
@@ -443,6 +448,59 @@ def bool_layer(ctx):
                         inp={'layer': 'bool-reader', 'cls': c['cls'], 'name': c['name'], 's': c['s'], 'tag': c['tag']})
 
 
+# ---------------------------------------------------------------------------------------------------------------
+# unit-qualified values, and the value in use after Calculate (HIP-RA-X)
+# ---------------------------------------------------------------------------------------------------------------
+
+def unit_layer(ctx):
+    """every float declaration with a pint-convertible unit family: values written in other units of the catalogue whose
+    converted value sits at / next to the declared bounds; verdict = range model on the converted value (C07_unit_qualified)"""
+    model = live(ctx)[0]
+    cases, skipped = [], 0
+    for cls, o, name, p, i, r in numeric_params(ctx, 'reader'):
+        if r['kind'] != 'KFloat':
+            continue
+        for tag, s, c, unit in rp.unit_probes(p, r, ctx.n(2, 6)):
+            obs = rp.observe_reader(p, name, s, model)
+            if obs['o'][0] == 'C':
+                skipped += 1          # pint / LookupUnits cannot handle the unit text (compound units, '%'): C06, not a range verdict
+                continue
+            cases.append(mk('unit', cls, name, i, tag, s, c, obs))
+    ctx.count('unit', unit_text_not_understood_C06=skipped, units={u: 1 for u in sorted({c['s'].split(' ')[1] for c in cases})})
+    judge(ctx, 'unit', cases, compare_model=True)
+    # Model.read_parameters: out-of-range values in another unit must be rejected by name (in-range: value echo is C06)
+    rows, idx = live(ctx)[2], live(ctx)[3]
+    fam, kind, base, _ = families()[0]
+    holder = {r['name']: r['cls'] for r in rows if r['cls'] in active_classes(kind, base, ctx)}
+    jobs = [dict(c, cls=holder[c['name']], i=idx[(holder[c['name']], c['name'])]) for c in cases if c['tag'] != 'unit-in' and c['name'] in holder]
+    ctx.rng.shuffle(jobs)
+    jobs = sorted(jobs[:ctx.n(120, 3000)], key=lambda c: (c['cls'], c['name'], c['s']))
+    res = pool_map(ctx, rp.family_read, [(kind, base, c['name'], c['s'], str(ctx.scratch)) for c in jobs])
+    judge(ctx, 'unit-family', [mk('unit-family', c['cls'], c['name'], c['i'], c['tag'], c['s'], c['v'], obs, family=fam) for c, (_, obs) in zip(jobs, res)],
+          compare_model=False)
+
+
+def hip_calculate_layer(ctx):
+    """HIP-RA-X: a documented bound (or any in-range value) is still the value the parameter holds after Calculate"""
+    model, srcs, rows, idx = live(ctx)
+    base = (fw.REPO / FAMILIES[-1][2]).read_text()
+    jobs = []
+    for r in rows:
+        if r['cls'] == 'HIP_RA_X' and r['kind'] in ('KFloat', 'KInt'):
+            jobs += [dict(cls=r['cls'], name=r['name'], i=idx[(r['cls'], r['name'])], tag=tag, s=s, v=v)
+                     for tag, s, v in rp.probes(r, ctx.rng, extra=ctx.n(0, 4)) if tag in ('min', 'max', 'inside', 'member')]
+    res = pool_map(ctx, rp.hip_calculate, [(base, j['name'], j['s'], str(ctx.scratch)) for j in jobs])
+    cases, later = [], 0
+    for j, out in zip(jobs, res):
+        if isinstance(out, tuple) and out[0] == 'calc':
+            later += 1                  # Calculate itself cannot work with the value: a later, physical rejection
+            continue
+        obs = {'o': ('C', out[1]), 'fin': None, 'prov': False} if isinstance(out, tuple) else {'o': ('A', F(out)), 'fin': F(out), 'prov': True}
+        cases.append(mk('hip-calculate', j['cls'], j['name'], j['i'], j['tag'], j['s'], j['v'], obs, family='HIP-RA-X'))
+    ctx.count('hip-calculate', calculate_errors_not_C07=later)
+    judge(ctx, 'hip-calculate', cases, compare_model=False)
+
+
 def corpus_layer(ctx):
     """regression seeds: (class, parameter, sValue) triples, reader + module level"""
     model, srcs, rows, idx = live(ctx)
@@ -465,7 +523,7 @@ def corpus_layer(ctx):
 def correspondence(ctx, proofs_ok=True):
     import time
     paramtable.build_gen(ctx, ('Gen/ParamTable.vo', 'Gen/OptionTable.vo'))
-    for layer in (corpus_layer, table_layer, reader_layer, module_layer, family_layer, client_layer, token_layer, bool_layer):
+    for layer in (corpus_layer, table_layer, reader_layer, module_layer, family_layer, client_layer, token_layer, bool_layer, unit_layer, hip_calculate_layer):
         t = time.time()
         layer(ctx)
         ctx.note(f'{layer.__name__}: {time.time() - t:.1f} s')
@@ -485,6 +543,32 @@ def search(ctx):
             cases.append(mk('reader', cls, name, idx[(cls, name)], tag, s, v, rp.observe_reader(objs[cls].ParameterDict[name], name, s, model)))
             cases.append(mk('module', cls, name, idx[(cls, name)], tag, s, v, rp.observe_module(*pkgs[cls], model, name, s)))
     judge(ctx, 'search', cases, compare_model=False)
+
+
+def replay_units(ctx, inp, k):
+    model, srcs, rows, idx = live(ctx)
+    p, r = dict(srcs)[k[0]].ParameterDict[k[1]], rows[idx[k]]
+    if inp['layer'] == 'hip-calculate':
+        out = rp.hip_calculate(((fw.REPO / FAMILIES[-1][2]).read_text(), k[1], inp['s'], str(ctx.scratch)))
+        print(f'HIP-RA-X with {k[1]} = {inp["s"]!r}: value held after read_parameters + Calculate: {out}')
+        obs = {'o': ('C', str(out)), 'fin': None, 'prov': False} if isinstance(out, tuple) else {'o': ('A', F(out)), 'fin': F(out), 'prov': True}
+        cs = [('hip-calculate', mk('hip-calculate', *k, idx[k], inp.get('tag', '?'), inp['s'], F(float(inp['s'])), obs))]
+    else:
+        x, unit = inp['s'].split(' ')
+        c = rp.convert_as_reader(float(x), unit, p.CurrentUnits.value)
+        print(f'{inp["s"]} = {c} {p.CurrentUnits.value} (pint); declared range [{float(r["min"])}, {float(r["max"])}] {p.CurrentUnits.value}')
+        cs = [('unit', mk('unit', *k, idx[k], inp.get('tag', '?'), inp['s'], F(c), rp.observe_reader(p, k[1], inp['s'], model)))]
+        if c < r['min'] or c > r['max']:
+            fam, kind, base, _ = families()[0]
+            cs.append(('unit-family', mk('unit-family', *k, idx[k], inp.get('tag', '?'), inp['s'], F(c), rp.family_read((kind, base, k[1], inp['s'], str(ctx.scratch)))[1])))
+    bad = 0
+    for layer, c in cs:
+        agrees = not kernel(ctx, 'replay-agree', 'rcase_agrees', [c]) if layer == 'unit' else None
+        ok = not kernel(ctx, 'replay-spec', 'rcase_spec', [c])
+        print(f'{layer:13s} implementation: {rp.show(c["obs"])}' + (f' | Coq model (on the converted value) agrees: {agrees}' if agrees is not None else '') + f' | spec_ok: {ok}')
+        bad += not ok
+    print('property', 'VIOLATED' if bad else 'holds', 'on this input')
+    return 1 if bad else 0
 
 
 def replay_text(ctx, inp, k, pkgs):
@@ -544,6 +628,8 @@ def replay(ctx, data):
         print('property', 'VIOLATED' if fails else 'holds', 'on this input')
         return 1 if fails else 0
     pkgs = {c.__name__: (pkg, c) for pkg, c in paramtable.module_classes()}
+    if str(inp.get('layer', '')).startswith(('unit', 'hip-calculate')):
+        return replay_units(ctx, inp, k)
     if str(inp.get('layer', '')).startswith(('tok-', 'bool-', 'option-')):
         return replay_text(ctx, inp, k, pkgs)
     s, v = inp['s'], F(float(inp['s']))
